@@ -161,25 +161,33 @@ func (p *Primary) OnWALBatchWritten(startSeq uint64, entries []*wal.Entry) {
 	// Reset batcher to ensure a clean state when processing a batch
 	p.batcher.Reset()
 
-	// Process each entry in the batch
+	// The entries of a WAL batch (a transaction) share the batch's sequence number and a
+	// replica moves on to the next number after a message: the batch travels as ONE
+	// message, numbered by the WAL (the SequenceNumber field of the entries handed to
+	// AppendBatch is whatever the caller left there)
+	protoEntries := make([]*proto.WALEntry, 0, len(entries))
 	for _, entry := range entries {
-		ready, err := p.batcher.AddEntry(entry)
+		numbered := &wal.Entry{
+			SequenceNumber: startSeq,
+			Type:           entry.Type,
+			Key:            entry.Key,
+			Value:          entry.Value,
+		}
+		protoEntry, err := WALEntryToProto(numbered, proto.FragmentType_FULL)
 		if err != nil {
+			// Send nothing rather than a part of the batch, the catch-up reads it from the WAL
 			log.Error("Error adding batch entry to replication: %v", err)
-			continue
+			return
 		}
-
-		// If we filled up the batch during processing, send it
-		if ready {
-			response := p.batcher.GetBatch()
-			p.broadcastToReplicas(response)
-		}
+		protoEntries = append(protoEntries, protoEntry)
 	}
 
-	// If we have entries in the batch after processing all entries, send them
-	if p.batcher.GetBatchCount() > 0 {
-		response := p.batcher.GetBatch()
-		p.broadcastToReplicas(response)
+	if len(protoEntries) > 0 {
+		p.broadcastToReplicas(&proto.WALStreamResponse{
+			Entries:    protoEntries,
+			Compressed: false,
+			Codec:      proto.CompressionCodec_NONE,
+		})
 	}
 }
 
